@@ -11,14 +11,15 @@
 (***************************************************************************)
 EXTENDS DxRun, Json
 
+CONSTANT MAXN           \* largest number of fields (4 quick, 6 thorough)
 Bool == BOOLEAN
 VARIABLES kind, cfg, j, res, log, pc
 vars == <<kind, cfg, j, res, log, pc>>
 
 StructCfgs ==
-    [ev : {"binop"}, op : BinOps, n : 0..4, lref : Bool, rref : Bool] \cup
-    [ev : {"assignop"}, op : BinOps, n : 0..4, lref : {FALSE}, rref : Bool] \cup
-    [ev : {"unop"}, op : UnOps, n : 0..4, lref : Bool, rref : {FALSE}]
+    [ev : {"binop"}, op : BinOps, n : 0..MAXN, lref : Bool, rref : Bool] \cup
+    [ev : {"assignop"}, op : BinOps, n : 0..MAXN, lref : {FALSE}, rref : Bool] \cup
+    [ev : {"unop"}, op : UnOps, n : 0..MAXN, lref : Bool, rref : {FALSE}]
 ImplCfgs ==
     [bl : {"v", "r"}, br : {"v", "r"}, want_bin : Bool, want_assign : Bool, base_is_assign : {FALSE}] \cup
     [bl : {"v"}, br : {"v", "r"}, want_bin : {TRUE}, want_assign : {FALSE}, base_is_assign : {TRUE}]
